@@ -426,6 +426,12 @@ func genFor(prop, part string, seed uint64) *Scenario {
 		if part == "swap" {
 			return genSwap(seed, "C01/swap")
 		}
+		if part == "queue" {
+			// every order of {predecessor created / finished / flushed long ago, successors created}
+			sc := genC17(seed, "mixed")
+			sc.Fam = "C01/queue"
+			return sc
+		}
 		pf.narrowP, pf.emptyMsgP, pf.builtinP, pf.nilOut = 15, 30, 30, true
 		if part == "err" {
 			sc := genC15(seed, common.NewRng(seed).PickS("filler", "filler", "output"))
@@ -494,6 +500,8 @@ func genFor(prop, part string, seed uint64) *Scenario {
 		pf.afterP = 20
 		pf.popP = 30
 		pf.narrowP = 12 // rows whose width is used up before every decorator was drawn
+		pf.emptyMsgP = 25 // wrappers whose final message is empty (they still take part in their column)
+		pf.syncP = 40
 	case "C05":
 		if part == "queue" {
 			return genC05Queue(seed)
@@ -503,10 +511,17 @@ func genFor(prop, part string, seed uint64) *Scenario {
 			// zero to five frames earlier (C06's generator)
 			sc := genC06(seed, "pop")
 			sc.Fam = "C05/late"
+			sc.Notifier = true
+			if r := common.NewRng(seed ^ 0x55); r.Bool() {
+				// the container is cancelled while flush holds a bar in the frame that
+				// moves it to the top: one frame before it pops out it is still in the container
+				sc.End = "cancel"
+				sc.Trig = &Trigger{Point: "flush.bar", Occ: r.Range(1, 4), A: 1, Bar: -1, Action: r.PickS("cancel", "shutdown")}
+			}
 			return sc
 		}
 		if part == "err" {
-			sc := genC15(seed, "filler")
+			sc := genC15(seed, common.NewRng(seed^0x05).PickS("filler", "filler", "output"))
 			sc.Fam = "C05/err"
 			sc.Notifier = true
 			return sc
@@ -653,6 +668,28 @@ func c13Boost(sc *Scenario, r *common.Rng) {
 					w = sc.Width - 20
 				}
 				fmt.Fprintf(&sb, "~w%d:%d.%d:%s~\n", ci, seq, l, strings.Repeat("z", r.Intn(w+1)))
+			}
+			at := r.Intn(len(sc.Clients[ci]) + 1)
+			ops := append([]Op(nil), sc.Clients[ci][:at]...)
+			ops = append(ops, Op{K: "write", S: sb.String()})
+			sc.Clients[ci] = append(ops, sc.Clients[ci][at:]...)
+		}
+	}
+	if sc.Mode != "pty" && r.Chance(1, 4) {
+		// big writes: one Write of 40-150 KiB in many lines (a log dumped in one go)
+		ci := r.Intn(len(sc.Clients))
+		for k := 0; k < r.Range(1, 2); k++ {
+			seq++
+			var sb strings.Builder
+			w := r.Pick(200, 1000, 2500)
+			if sc.Width < w+30 {
+				w = sc.Width - 30
+			}
+			if w < 1 {
+				w = 1
+			}
+			for l := 0; sb.Len() < r.Pick(40000, 70000, 150000); l++ {
+				fmt.Fprintf(&sb, "~B%d:%d.%d:%s~\n", ci, seq, l, strings.Repeat("y", w))
 			}
 			at := r.Intn(len(sc.Clients[ci]) + 1)
 			ops := append([]Op(nil), sc.Clients[ci][:at]...)
